@@ -1,5 +1,7 @@
 #include "sim/monitors.hpp"
 
+#include "ref/lib2ref.hpp"
+
 #include <boost/asio/error.hpp>
 #include <boost/mqtt5/error.hpp>
 
@@ -61,6 +63,9 @@ std::string op_str(const OpRec& o) {
     if (o.completions) s << " done@" << o.t_done / 1e9 << "s ec=" << ec_name(o.ec);
     return s.str();
 }
+
+ref::Props l2r_will_props(const ClientCfg& c) { return l2r::to_ref(c.will_props); }
+ref::Props l2r_connect_props(const ClientCfg& c) { return l2r::to_ref(c.connect_props); }
 
 bool is_pub12(const OpRec& o) { return o.kind == OpKind::pub1 || o.kind == OpKind::pub2; }
 bool is_request(const OpRec& o) { return is_pub12(o) || o.kind == OpKind::sub || o.kind == OpKind::unsub; }
@@ -483,6 +488,411 @@ void mon_session_expired(const Run& run, const Ix&, Verdicts& v, vu::Result& res
     }
 }
 
+
+// ------------------------------------------------------------------------------------------------ C04
+void mon_inbound(const Run& run, const Ix&, Verdicts& v, vu::Result& res) {
+    const History& h = run.w->h;
+    const auto& out = run.broker->out;
+    uint64_t final_seq = UINT64_MAX; vt final_t = run.out.t_end;
+    for (auto& e : h.ev) if (e.kind == Ev::note && e.s == "final phase") final_seq = e.seq;
+    uint64_t first_terminal = UINT64_MAX; vt first_terminal_t = INT64_MAX;
+    for (auto& e : h.ev) if (e.kind == Ev::terminal && e.seq < first_terminal) { first_terminal = e.seq; first_terminal_t = e.t; }
+    auto conn_hostile = [&](int cid) { for (auto& b : h.bpkts) if (b.conn == cid && (b.kind == BKind::hostile || b.kind == BKind::spurious || !b.wellformed)) return true; return false; };
+    auto healthy_until = [&](const ConnRec& c, vt t) {
+        if (c.faulted && c.t_fault <= t) return false;
+        if (c.t_closed >= 0 && c.t_closed <= t) return false;
+        if (first_terminal_t <= t) return false;
+        if (final_t < t) return false;
+        return true;
+    };
+    // (a) every delivered PUBLISH / PUBREL is answered on a connection that stays healthy
+    for (auto& b : h.bpkts) {
+        if (b.delivered_t < 0 || !b.wellformed || b.kind == BKind::hostile || b.kind == BKind::spurious) continue;
+        bool pub = b.pkt.type == ref::PUBLISH && b.pkt.qos > 0, rel = b.pkt.type == ref::PUBREL;
+        if (!pub && !rel) continue;
+        auto& c = h.conns[b.conn];
+        if (conn_hostile(c.id)) continue;
+        if (!healthy_until(c, b.delivered_t + 5 * SEC)) continue;
+        uint8_t want = rel ? ref::PUBCOMP : (b.pkt.qos == 1 ? ref::PUBACK : ref::PUBREC);
+        bool answered = false;
+        for (auto& k : h.cpkts)
+            if (k.conn == b.conn && k.seq > b.delivered_seq && k.dec.status == ref::Status::ok && k.dec.pkt.type == want && k.dec.pkt.pid == b.pkt.pid && k.t <= b.delivered_t + 5 * SEC) { answered = true; break; }
+        res.count(rel ? "pubrels_delivered" : "inbound_publishes_delivered");
+        if (answered) continue;
+        if (rel) {
+            // which situation: first PUBREL of the exchange on this connection, or a retransmission after the client had already sent PUBCOMP
+            bool client_completed_before = false;
+            for (auto& k : h.cpkts) if (k.seq < b.delivered_seq && k.dec.status == ref::Status::ok && k.dec.pkt.type == ref::PUBCOMP && k.dec.pkt.pid == b.pkt.pid) client_completed_before = true;
+            bool session_resumed = c.session_present;
+            std::string cls = b.kind == BKind::retransmit ? (client_completed_before ? "retransmitted-after-client-sent-pubcomp" : "retransmitted-before-client-sent-pubcomp") : "first-transmission";
+            if (!session_resumed) cls += ":session-not-resumed";
+            if (!client_completed_before) {
+                // did the client's PUBREC reach the broker although the write that carried it was reported failed?
+                const CPacket* rec = nullptr;
+                for (auto& k : h.cpkts) if (k.seq < b.delivered_seq && k.dec.status == ref::Status::ok && k.dec.pkt.type == ref::PUBREC && k.dec.pkt.pid == b.pkt.pid) rec = &k;
+                if (rec && rec->reached_broker) { auto& w = h.writes[rec->write]; if (w.done && w.result) cls += ":pubrec-reached-broker-but-write-reported-failed"; }
+            }
+            v.add("C04", "C04:pubrel-unanswered:" + cls, "PUBREL id " + std::to_string(b.pkt.pid) + " delivered on connection " + std::to_string(b.conn) + " at " + std::to_string(b.delivered_t / 1e9) + "s was not answered by PUBCOMP within 5 s on a healthy connection (" + cls + ")");
+        } else {
+            v.add("C04", std::string("C04:publish-unacknowledged:qos") + char('0' + b.pkt.qos) + (b.kind == BKind::retransmit ? ":retransmission" : ""),
+                  "PUBLISH id " + std::to_string(b.pkt.pid) + " delivered on connection " + std::to_string(b.conn) + " at " + std::to_string(b.delivered_t / 1e9) + "s was not acknowledged within 5 s on a healthy connection");
+        }
+    }
+    // (b) acknowledgements only in response: per connection and packet id
+    for (auto& c : h.conns) {
+        if (conn_hostile(c.id)) continue;
+        std::map<uint16_t, int> pub1, pub2, rels, comps;   // delivered counts / sent counts
+        struct It { uint64_t seq; bool from_broker; int id; };
+        std::vector<It> tl;
+        for (auto& b : h.bpkts) if (b.conn == c.id && b.delivered_t >= 0) tl.push_back({b.delivered_seq, true, b.id});
+        for (auto& k : h.cpkts) if (k.conn == c.id && k.dec.status == ref::Status::ok) tl.push_back({k.seq, false, k.id});
+        std::sort(tl.begin(), tl.end(), [](const It& a, const It& b) { return a.seq < b.seq; });
+        for (auto& t : tl) {
+            if (t.from_broker) {
+                auto& p = h.bpkts[t.id].pkt;
+                if (p.type == ref::PUBLISH && p.qos == 1) pub1[p.pid]++;
+                if (p.type == ref::PUBLISH && p.qos == 2) pub2[p.pid]++;
+                if (p.type == ref::PUBREL) rels[p.pid]++;
+            } else {
+                auto& p = h.cpkts[t.id].dec.pkt;
+                if (p.type == ref::PUBACK && !pub1[p.pid]) v.add("C04", "C04:puback-without-publish", "connection " + std::to_string(c.id) + ": PUBACK id " + std::to_string(p.pid) + " although no QoS 1 PUBLISH with that id had been delivered");
+                if (p.type == ref::PUBREC && !pub2[p.pid]) v.add("C04", "C04:pubrec-without-publish", "connection " + std::to_string(c.id) + ": PUBREC id " + std::to_string(p.pid) + " although no QoS 2 PUBLISH with that id had been delivered");
+                if (p.type == ref::PUBCOMP) {
+                    if (comps[p.pid] >= rels[p.pid]) v.add("C04", rels[p.pid] ? "C04:more-pubcomp-than-pubrel" : "C04:pubcomp-before-pubrel", "connection " + std::to_string(c.id) + ": PUBCOMP id " + std::to_string(p.pid) + " without a (further) delivered PUBREL");
+                    comps[p.pid]++;
+                }
+            }
+        }
+    }
+    // (c) deliveries to the application
+    std::vector<int> count(out.size(), 0);
+    std::vector<uint64_t> first_delivery(out.size(), 0);
+    for (auto& o : h.ops) {
+        if (o.kind != OpKind::recv || !o.completions || o.ec) continue;
+        int mid = -1;
+        if (o.r_topic.rfind("in/", 0) == 0) { size_t e = o.r_topic.find('/', 3); if (e != std::string::npos) mid = atoi(o.r_topic.substr(3, e - 3).c_str()); }
+        if (mid < 0 || mid >= (int)out.size()) { if (!run.broker->out.empty() || o.r_topic.rfind("in/", 0) == 0) v.add("C04", "C04:unknown-message-delivered", op_str(o) + ": delivered a message the broker never sent: " + o.r_topic); continue; }
+        auto& m = out[mid];
+        if (!count[mid]) first_delivery[mid] = o.seq_done;
+        count[mid]++;
+        res.count("app_deliveries");
+        std::string df;
+        if (o.r_topic != m.topic) df += "topic ";
+        if (o.r_payload != m.payload) df += "payload ";
+        if (!ref::props_equal(o.r_props, m.props)) df += "properties ";
+        if (!df.empty()) v.add("C04", "C04:delivered-message-differs:" + df, op_str(o) + ": delivered message differs from what the broker sent in: " + df);
+    }
+    for (auto& m : out) {
+        if (m.qos == 2 && count[m.id] > 1) v.add("C04", "C04:qos2-delivered-twice", "QoS 2 message " + m.topic + " handed to the application " + std::to_string(count[m.id]) + " times");
+        if (m.qos == 0 && count[m.id] > 1) v.add("C04", "C04:qos0-delivered-twice", "QoS 0 message " + m.topic + " handed to the application " + std::to_string(count[m.id]) + " times");
+        if (m.qos == 2 && count[m.id] == 1 && m.pub_bpkts.size() > 1) res.count("qos2_retransmitted_delivered_once");
+        int ack = m.qos == 1 ? m.ack_cpkt : m.qos == 2 ? m.comp_cpkt : -1;
+        if (ack < 0) continue;
+        auto& k = h.cpkts[ack];
+        // lower bounds are owed only if the application kept receiving for a while after the acknowledgement
+        if (k.rx_t + 1 * SEC > std::min(final_t, first_terminal_t)) continue;
+        res.count("acked_inbound_messages");
+        if (count[m.id] == 0) {
+            auto& w = h.writes[k.write];
+            bool failed_write = w.done && w.result && k.reached_broker;
+            // was the PUBREL of this exchange consumed by a left-over exchange of a lost session that used the same packet id?
+            bool stale = false;
+            if (m.qos == 2 && !m.pub_bpkts.empty() && m.pub_bpkts[0] >= 0)
+                for (auto& x : out)
+                    if (x.id != m.id && x.qos == 2 && x.pid == m.pid && x.st == OutMsg::abandoned && count[x.id] && first_delivery[x.id] > h.bpkts[m.pub_bpkts[0]].seq) stale = true;
+            if (stale) failed_write = false;
+            v.add("C04", std::string("C04:acknowledged-but-never-delivered:qos") + char('0' + m.qos) + (failed_write ? ":ack-reached-broker-but-write-reported-failed" : "") +
+                             (stale ? ":pubrel-consumed-by-stale-exchange-of-lost-session" : ""),
+                  "message " + m.topic + " (QoS " + std::to_string(m.qos) + ") was acknowledged to the broker (" + ref::type_name(k.dec.pkt.type) + " received at " + std::to_string(k.rx_t / 1e9) + "s) but never reached async_receive" +
+                      (failed_write ? "; the write that carried the acknowledgement was reported failed after all its bytes had left" : ""));
+        }
+    }
+    // (d) order per QoS level: first deliveries follow the broker's first-send order
+    for (int q = 0; q < 3; ++q) {
+        uint64_t last = 0; int last_id = -1;
+        for (auto& m : out) {
+            if (m.qos != q || !count[m.id] || m.pub_bpkts.empty()) continue;
+            if (m.st == OutMsg::abandoned) continue;   // its session was lost: no ordering is owed relative to the new session
+            if (first_delivery[m.id] < last) v.add("C04", std::string("C04:delivery-order:qos") + char('0' + q), "message " + m.topic + " was delivered before message #" + std::to_string(last_id) + " of the same QoS which the broker sent first");
+            else { last = first_delivery[m.id]; last_id = m.id; }
+        }
+    }
+}
+
+// ------------------------------------------------------------------------------------------------ C09
+void mon_disconnect(const Run& run, const Ix&, Verdicts& v, vu::Result& res) {
+    const History& h = run.w->h;
+    for (auto& d : h.ops) {
+        if (d.kind != OpKind::disconnect) continue;
+        res.count("disconnects");
+        uint64_t s0 = d.seq_init; vt t0 = d.t_init;
+        uint64_t s_done = d.completions ? d.seq_done : UINT64_MAX;
+        if (d.completions && d.t_done - t0 > 5 * SEC) v.add("C09", "C09:slower-than-5s", op_str(d) + ": async_disconnect completed " + std::to_string((d.t_done - t0) / 1e9) + " s after initiation");
+        if (!d.completions && run.out.t_end - t0 > 5 * SEC + 1 * MS && !run.out.exception && !run.out.hang) v.add("C09", "C09:not-completed-within-5s", op_str(d) + ": async_disconnect had not completed 5 s after initiation");
+        if (d.immediate_expected) continue;
+        // expected contents
+        auto is_expected_disconnect = [&](const ref::Packet& p, const ConnRec& c) {
+            if (p.type != ref::DISCONNECT || p.rc != d.disc_rc) return false;
+            if (ref::props_equal(p.props, d.props)) return true;
+            // properties may be dropped when the packet would exceed the broker's Maximum Packet Size
+            if (c.caps.maximum_packet_size && p.props.empty()) { ref::Packet full; full.type = ref::DISCONNECT; full.rc = d.disc_rc; full.props = d.props; return ref::encode(full).size() > *c.caps.maximum_packet_size; }
+            return false;
+        };
+        bool sent_somewhere = false;
+        for (auto& c : h.conns) {
+            if (c.t_closed >= 0 && c.seq_closed < s0) continue;     // gone before the call
+            if (c.seq_begin > s_done) continue;                     // after completion: judged below
+            bool hostile = false;
+            for (auto& b : h.bpkts) if (b.conn == c.id && (b.kind == BKind::hostile || !b.wellformed)) hostile = true;
+            if (hostile) continue;
+            // packets offered on this connection after the call, write by write
+            bool seen_disconnect = false;
+            for (auto& w : h.writes) {
+                if (w.conn != c.id || w.during_handshake) continue;
+                if (w.seq_begin < s0) continue;                     // the write already in progress (or earlier ones)
+                std::vector<const CPacket*> pk;
+                for (int ci : w.pkts) pk.push_back(&h.cpkts[ci]);
+                if (seen_disconnect) { v.add("C09", "C09:bytes-after-disconnect", "connection " + std::to_string(c.id) + ": something was written after the DISCONNECT of " + op_str(d)); continue; }
+                bool has = false;
+                for (auto* k : pk) if (k->dec.status == ref::Status::ok && k->dec.pkt.type == ref::DISCONNECT) has = true;
+                if (!has) { v.add("C09", "C09:packet-ahead-of-disconnect", "connection " + std::to_string(c.id) + ": " + (pk.empty() ? std::string("bytes") : std::string(ref::type_name(pk[0]->dec.pkt.type))) + " written after async_disconnect was initiated, ahead of the DISCONNECT"); continue; }
+                if (pk.size() != 1) v.add("C09", "C09:disconnect-not-alone", "connection " + std::to_string(c.id) + ": DISCONNECT batched with " + std::to_string(pk.size() - 1) + " other packet(s)");
+                else if (!is_expected_disconnect(pk[0]->dec.pkt, c)) v.add("C09", "C09:disconnect-contents", "connection " + std::to_string(c.id) + ": DISCONNECT differs from the request: " + pk[0]->dec.pkt.str());
+                seen_disconnect = true; sent_somewhere = true;
+            }
+        }
+        if (sent_somewhere) res.count("disconnects_on_the_wire");
+        // other outstanding operations
+        for (auto& o : h.ops) {
+            if (o.id == d.id || o.seq_init > s0 || (o.completions && o.seq_done < s0)) continue;
+            if (!d.completions) continue;
+            if (!o.completions) { if (!o.after_terminal) v.add("C09", std::string("C09:operation-left-pending:") + op_kind_name(o.kind), op_str(o) + " still pending after async_disconnect completed"); continue; }
+            if (o.ec && o.ec != ae::operation_aborted && !o.immediate_expected && !(o.kind == OpKind::recv && o.ec == mqe::error::session_expired))
+                v.add("C09", std::string("C09:wrong-code:") + op_kind_name(o.kind) + ":" + ec_name(o.ec), op_str(o) + " completed with " + ec_name(o.ec) + " during async_disconnect");
+        }
+        // silence afterwards, until async_run is called again
+        if (d.completions) {
+            uint64_t until = UINT64_MAX;
+            for (auto& o : h.ops) if (o.kind == OpKind::run && o.seq_init > s_done) { until = o.seq_init; break; }
+            for (auto& e : h.ev) {
+                if (e.seq <= s_done || e.seq >= until) continue;
+                if (e.kind == Ev::write_begin || e.kind == Ev::connect_begin || e.kind == Ev::resolve_begin)
+                    v.add("C09", std::string("C09:activity-after-disconnect:") + ev_name(e.kind), std::string(ev_name(e.kind)) + " at " + std::to_string(e.t / 1e9) + "s after async_disconnect had completed and before async_run");
+            }
+            res.count("disconnects_completed");
+        }
+    }
+}
+
+// ------------------------------------------------------------------------------------------------ C10 / C11(b)
+void mon_connect(const Run& run, const Ix&, Verdicts& v, vu::Result& res) {
+    const History& h = run.w->h;
+    const ClientCfg& cfg = run.sc->ccfg;
+    for (auto& c : h.conns) {
+        if (!c.tcp_ok) continue;
+        std::vector<const CPacket*> pk;
+        for (auto& k : h.cpkts) if (k.conn == c.id) pk.push_back(&k);
+        if (pk.empty()) continue;
+        res.count("connections_with_traffic");
+        // first packet: the configured CONNECT
+        const ref::Packet& p = pk[0]->dec.pkt;
+        if (pk[0]->dec.status != ref::Status::ok || p.type != ref::CONNECT) { v.add("C10", "C10:first-packet-not-connect", "connection " + std::to_string(c.id) + ": first packet is " + (pk[0]->dec.status == ref::Status::ok ? p.str() : "malformed")); continue; }
+        std::string df;
+        if (p.client_id != cfg.client_id) df += "client-id ";
+        if (p.has_user != !cfg.username.empty() || (p.has_user && p.user != cfg.username)) df += "user-name ";
+        if (p.has_pass != !cfg.password.empty() || (p.has_pass && p.pass != cfg.password)) df += "password ";
+        if (p.keep_alive != cfg.keep_alive) df += "keep-alive ";
+        if (p.clean_start) df += "clean-start ";
+        if (p.proto_ver != 5 || p.proto_name != "MQTT") df += "protocol ";
+        if (p.has_will != cfg.has_will) df += "will-flag ";
+        if (p.has_will && cfg.has_will) {
+            if (p.will_topic != cfg.will_topic) df += "will-topic ";
+            if (p.will_payload != cfg.will_payload) df += "will-payload ";
+            if (p.will_qos != cfg.will_qos) df += "will-qos ";
+            if (p.will_retain != cfg.will_retain) df += "will-retain ";
+            if (!ref::props_equal(p.will_props, l2r_will_props(cfg))) df += "will-properties ";
+        }
+        {
+            ref::Props want = l2r_connect_props(cfg), got = p.props;
+            if (cfg.use_authenticator) {
+                // the authenticator contributes method and initial data
+                bool has_method = false;
+                for (auto& x : got) if (x.id == 0x15 && x.s1 == cfg.auth_method) has_method = true;
+                if (!has_method) df += "authentication-method ";
+                ref::Props g2; for (auto& x : got) if (x.id != 0x15 && x.id != 0x16) g2.push_back(x);
+                ref::Props w2; for (auto& x : want) if (x.id != 0x15 && x.id != 0x16) w2.push_back(x);
+                got = g2; want = w2;
+            }
+            if (!ref::props_equal(got, want)) df += "connect-properties ";
+        }
+        if (!df.empty()) v.add("C10", "C10:connect-differs:" + df, "connection " + std::to_string(c.id) + ": CONNECT differs from the configuration in: " + df + "| " + p.str());
+        // gate: nothing but AUTH before the successful CONNACK has been delivered
+        uint64_t gate = UINT64_MAX;
+        if (c.connack_sent && c.connack_rc == 0 && c.connack_bpkt >= 0 && h.bpkts[c.connack_bpkt].delivered_t >= 0) gate = h.bpkts[c.connack_bpkt].delivered_seq;
+        for (size_t i = 1; i < pk.size(); ++i) {
+            auto& k = *pk[i];
+            bool before_gate = gate == UINT64_MAX || k.seq < gate;
+            if (!before_gate) break;
+            if (k.dec.status == ref::Status::ok && k.dec.pkt.type == ref::AUTH && cfg.use_authenticator) continue;
+            if (k.dec.status == ref::Status::ok && k.dec.pkt.type == ref::CONNECT) { v.add("C10", "C10:second-connect", "connection " + std::to_string(c.id) + ": more than one CONNECT"); continue; }
+            // hostile handshakes may make the client believe in a CONNACK that the broker model did not send as such
+            bool hostile = false;
+            for (auto& b : h.bpkts) if (b.conn == c.id && (b.kind == BKind::hostile || !b.wellformed)) hostile = true;
+            if (hostile) break;
+            v.add("C10", "C10:packet-before-connack", "connection " + std::to_string(c.id) + ": " + (k.dec.status == ref::Status::ok ? k.dec.pkt.str() : std::string("bytes")) + " written before a successful CONNACK had been delivered");
+        }
+    }
+    // abandonment: a handshake without CONNACK is given up exactly 5 s after async_connect was initiated
+    for (auto& c : h.conns) {
+        if (c.established) continue;
+        vt t_cancel = -1;
+        for (auto& e : h.ev) if (e.a == c.id && (e.kind == Ev::connect_end || e.kind == Ev::read_end || e.kind == Ev::write_end) && e.s.find("(cancel)") != std::string::npos) { t_cancel = e.t; break; }
+        if (t_cancel < 0) continue;
+        // cancellations caused by the application (cancel()/disconnect) are not timeouts
+        bool by_app = false;
+        for (auto& e : h.ev) if (e.kind == Ev::terminal && e.t == t_cancel) by_app = true;
+        if (by_app) continue;
+        res.count("handshake_timeouts");
+        if (t_cancel - c.t_begin != 5 * SEC) v.add("C10", "C10:handshake-timeout-not-5s", "connection " + std::to_string(c.id) + ": attempt abandoned " + std::to_string((t_cancel - c.t_begin) / 1e9) + " s after async_connect was initiated");
+    }
+    // C11 (b): single flight
+    for (auto& e : h.ev) if (e.kind == Ev::note && e.s.rfind("overlap:", 0) == 0) v.add("C11", "C11:overlapping-attempts", e.s + " (t=" + std::to_string(e.t / 1e9) + "s)");
+    if (run.w->max_resolving > 1) v.add("C11", "C11:overlapping-resolutions", "two name resolutions in flight at once");
+    {
+        // after cancel() / a completed async_disconnect no connection attempt starts until async_run
+        uint64_t quiet_from = 0; bool quiet = false;
+        struct It { uint64_t seq; int kind; };
+        for (auto& e : h.ev) {
+            if (e.kind == Ev::terminal && (e.b == 0 || e.b == 2 || e.b == 3)) { quiet = true; quiet_from = e.seq; }
+            if (e.kind == Ev::api_init && e.b == int(OpKind::run)) quiet = false;
+            if (quiet && e.seq > quiet_from && (e.kind == Ev::connect_begin || e.kind == Ev::resolve_begin))
+                v.add("C11", std::string("C11:attempt-after-cancel:") + ev_name(e.kind), std::string(ev_name(e.kind)) + " after the client had been cancelled (t=" + std::to_string(e.t / 1e9) + "s)");
+        }
+    }
+    if (h.conns.size() >= 2) res.count("scenarios_with_reconnects");
+}
+
+// ------------------------------------------------------------------------------------------------ C12
+void mon_keepalive(const Run& run, const Ix&, Verdicts& v, vu::Result& res) {
+    const History& h = run.w->h;
+    for (auto& c : h.conns) {
+        if (!c.established) continue;
+        bool hostile = false;
+        for (auto& b : h.bpkts) if (b.conn == c.id && (b.kind == BKind::hostile || !b.wellformed)) hostile = true;
+        if (hostile) continue;
+        unsigned K = c.caps.server_keep_alive ? *c.caps.server_keep_alive : run.sc->ccfg.keep_alive;
+        vt end = c.t_closed >= 0 ? c.t_closed : run.out.t_end;
+        if (c.faulted && c.t_fault < end) end = c.t_fault;
+        for (auto& e : h.ev) if (e.kind == Ev::terminal && e.t < end && e.seq > c.seq_established) end = e.t;
+        std::vector<const CPacket*> pings;
+        for (auto& k : h.cpkts) if (k.conn == c.id && k.dec.status == ref::Status::ok && k.dec.pkt.type == ref::PINGREQ) pings.push_back(&k);
+        if (K == 0) {
+            if (!pings.empty()) v.add("C12", "C12:ping-with-keepalive-0", "connection " + std::to_string(c.id) + ": PINGREQ although the negotiated keep-alive is 0");
+            for (auto& e : h.ev) if (e.a == c.id && e.kind == Ev::read_end && e.s.find("(cancel)") != std::string::npos && e.seq > c.seq_established) {
+                bool by_app = false;
+                for (auto& x : h.ev) if (x.kind == Ev::terminal && x.t == e.t) by_app = true;
+                if (!by_app) v.add("C12", "C12:read-timeout-with-keepalive-0", "connection " + std::to_string(c.id) + ": read abandoned although keep-alive is 0");
+            }
+            res.count("keepalive0_connections");
+            continue;
+        }
+        vt KK = vt(K) * SEC;
+        // PINGREQ deadlines
+        vt ts = c.t_established; size_t pi = 0;
+        while (ts + KK < end) {
+            vt deadline = ts + KK;
+            // a write pending at the deadline postpones the PINGREQ to its end
+            for (auto& w : h.writes) if (w.conn == c.id && w.t_begin <= deadline && (!w.done || w.t_end > deadline)) deadline = std::max(deadline, w.done ? w.t_end : end);
+            if (deadline >= end) break;
+            if (pi >= pings.size() || pings[pi]->t > deadline) {
+                v.add("C12", "C12:pingreq-late", "connection " + std::to_string(c.id) + " (keep-alive " + std::to_string(K) + " s): no PINGREQ by " + std::to_string(deadline / 1e9) + "s (interval started at " + std::to_string(ts / 1e9) + "s)");
+                break;
+            }
+            res.count("ping_intervals_checked");
+            auto& w = h.writes[pings[pi]->write];
+            if (!w.done) break;
+            ts = w.t_end; ++pi;
+        }
+        // silence timeout: a read that gets no byte is abandoned exactly 1.5*K after it was started
+        vt rb = -1;
+        for (auto& e : h.ev) {
+            if (e.a != c.id || e.seq < c.seq_established) continue;
+            if (e.kind == Ev::read_begin) rb = e.t;
+            else if (e.kind == Ev::read_end) {
+                if (e.s.find("(cancel)") != std::string::npos && rb >= 0) {
+                    bool by_app = false;
+                    for (auto& x : h.ev) if (x.kind == Ev::terminal && x.t == e.t) by_app = true;
+                    if (!by_app) {
+                        res.count("read_timeouts");
+                        vt want = KK * 3 / 2;
+                        if (e.t - rb != want) v.add("C12", e.t - rb < want ? "C12:read-timeout-early" : "C12:read-timeout-late",
+                                                    "connection " + std::to_string(c.id) + " (keep-alive " + std::to_string(K) + " s): read abandoned after " + std::to_string((e.t - rb) / 1e9) + " s of silence, expected " + std::to_string(want / 1e9));
+                    }
+                }
+                rb = -1;
+            }
+        }
+        if (rb >= 0 && rb + KK * 3 / 2 < end - 1 * MS) v.add("C12", "C12:no-read-timeout", "connection " + std::to_string(c.id) + " (keep-alive " + std::to_string(K) + " s): a read started at " + std::to_string(rb / 1e9) + "s got no byte for more than 1.5*K and was not abandoned");
+        res.count("keepalive_connections");
+    }
+}
+
+// ------------------------------------------------------------------------------------------------ C15
+void mon_capabilities(const Run& run, const Ix& ix, Verdicts& v, vu::Result& res) {
+    const History& h = run.w->h;
+    // which CONNACK did the client hold when the operation was initiated?
+    auto caps_at = [&](uint64_t seq) -> const ConnRec* {
+        const ConnRec* r = nullptr;
+        for (auto& c : h.conns) if (c.established && c.seq_established < seq) r = &c;
+        return r;
+    };
+    for (auto& k : h.cpkts) {
+        if (k.dec.status != ref::Status::ok) continue;
+        int op = ix.cpkt_op[k.id];
+        auto& p = k.dec.pkt;
+        const OpRec* o = op >= 0 ? &h.ops[op] : nullptr;
+        if (p.type == ref::DISCONNECT) {
+            auto& c = h.conns[k.conn];
+            if (c.caps.maximum_packet_size && k.raw.size() > *c.caps.maximum_packet_size) v.add("C15", "C15:disconnect-exceeds-maximum-packet-size", "DISCONNECT of " + std::to_string(k.raw.size()) + " bytes exceeds Maximum Packet Size " + std::to_string(*c.caps.maximum_packet_size));
+            continue;
+        }
+        if (!o) continue;
+        const ConnRec* held = caps_at(o->seq_init);
+        if (!held) continue;    // initiated without a CONNACK: outside the property
+        const Caps& cp = held->caps;
+        res.count("packets_checked_against_caps");
+        if (cp.maximum_packet_size && k.raw.size() > *cp.maximum_packet_size) v.add("C15", std::string("C15:exceeds-maximum-packet-size:") + ref::type_name(p.type), op_str(*o) + ": " + std::to_string(k.raw.size()) + " bytes on the wire, Maximum Packet Size " + std::to_string(*cp.maximum_packet_size));
+        if (p.type == ref::PUBLISH) {
+            if (cp.maximum_qos && p.qos > *cp.maximum_qos) v.add("C15", "C15:exceeds-maximum-qos", op_str(*o) + ": QoS " + std::to_string(p.qos) + " sent, Maximum QoS " + std::to_string(*cp.maximum_qos));
+            if (cp.retain_available && *cp.retain_available == 0 && p.retain) v.add("C15", "C15:retain-not-available", op_str(*o) + ": retained PUBLISH sent although Retain Available is 0");
+            for (auto& x : p.props) if (x.id == 0x23) { unsigned tam = cp.topic_alias_maximum.value_or(0); if (x.num == 0 || x.num > tam) v.add("C15", "C15:topic-alias-out-of-range", op_str(*o) + ": Topic Alias " + std::to_string(x.num) + " sent, Topic Alias Maximum " + std::to_string(tam)); }
+        }
+        if (p.type == ref::SUBSCRIBE) {
+            for (auto& sb : p.subs) {
+                bool shared = sb.first.rfind("$share/", 0) == 0;
+                if (cp.shared_available && *cp.shared_available == 0 && shared) v.add("C15", "C15:shared-subscription-not-available", op_str(*o) + ": shared subscription sent although disabled");
+                if (cp.wildcard_available && *cp.wildcard_available == 0 && ref::filter_has_wildcard(shared ? sb.first.substr(sb.first.find('/', 7) == std::string::npos ? 0 : sb.first.find('/', 7)) : sb.first)) v.add("C15", "C15:wildcard-subscription-not-available", op_str(*o) + ": wildcard subscription sent although disabled");
+            }
+            for (auto& x : p.props) if (x.id == 0x0B && cp.sub_id_available && *cp.sub_id_available == 0) v.add("C15", "C15:subscription-identifier-not-available", op_str(*o) + ": Subscription Identifier sent although disabled");
+        }
+    }
+    // application side: requests the model says must be refused
+    for (auto& o : h.ops) {
+        if (!o.immediate_expected) continue;
+        res.count("requests_expected_to_be_refused");
+        bool pub = o.kind == OpKind::pub0 || is_pub12(o);
+        const auto& reqs = pub ? ix.op_pubs[o.id] : ix.op_reqs[o.id];
+        const char* P = run.sc->family.rfind("c16", 0) == 0 ? "C16" : "C15";
+        if (!reqs.empty()) v.add(P, std::string(P) + ":refused-request-on-the-wire", op_str(o) + ": a request that must be refused was transmitted");
+        if (!o.completions) { v.add(P, std::string(P) + ":refusal-not-reported", op_str(o) + ": a request that must be refused never completed"); continue; }
+        if (!o.ec) v.add(P, std::string(P) + ":invalid-request-accepted", op_str(o) + ": a request that must be refused completed successfully");
+        if (o.t_done != o.t_init) v.add(P, std::string(P) + ":refusal-not-immediate", op_str(o) + ": refusal took " + std::to_string((o.t_done - o.t_init) / 1e9) + " s");
+        if (!o.tag.empty() && !run.sc->script.empty()) {
+            // expected code is carried in the operation's `topic`-independent field `disc_rc` (set by the family): 0 = unspecified
+        }
+    }
+}
+
 }  // namespace
 
 uint64_t trace_shape(const Run& run) {
@@ -521,6 +931,11 @@ void monitor_all(const Run& run, Verdicts& v, vu::Result& res) {
     mon_quota_and_ids(run, ix, v, res);
     mon_completion(run, ix, v, res);
     mon_session_expired(run, ix, v, res);
+    mon_inbound(run, ix, v, res);
+    mon_disconnect(run, ix, v, res);
+    mon_connect(run, ix, v, res);
+    mon_keepalive(run, ix, v, res);
+    mon_capabilities(run, ix, v, res);
 }
 
 }  // namespace sim
